@@ -310,6 +310,7 @@ func (ex *Exec) contractEnv(c *Contract, callee *ssa.Function, args, bindings []
 				env.vars[fv.Name()] = b
 			}
 		}
+		ex.applyAliases(env, callee)
 	} else {
 		for i, p := range c.Params {
 			if i < len(args) {
@@ -793,6 +794,16 @@ func (ex *Exec) checkCallsite(fr *Frame, key string, callee *ssa.Function, args 
 				env.vars["$"+p.Name()] = args[i]
 			}
 		}
+		for old, news := range ex.aliasesOf(callee) {
+			if _, has := env.vars["$"+old]; !has {
+				for _, n := range news {
+					if v, ok := env.vars["$"+n]; ok {
+						env.vars["$"+old] = v
+						break
+					}
+				}
+			}
+		}
 	} else {
 		var cc *Contract
 		if c := ex.specs.Contracts[key]; c != nil {
@@ -867,5 +878,6 @@ func (ex *Exec) localEnv(fr *Frame, st *State, at ssa.Instruction) *Env {
 			env.vars[name] = v
 		}
 	}
+	ex.applyAliases(env, fr.fn)
 	return env
 }
